@@ -822,30 +822,36 @@ def shards(tier, seed):
         for ndim in (2, 3, 4, 5):
             for shape in sh[ndim]:
                 for ncf in ('fixed', 'boot'):
-                    for fill in range(5 if th else 2):
+                    for fill in range(5 if th else (2 if m < 4 else 1)):
                         out.append({'fam': 'T', 'kind': 'fills', 'shape': list(shape), 'ncf': ncf, 'fill': fill,
                                     'vcs': vcs, 'types': ['t-test', 'bootstrap']})
                 if ndim == 3:
-                    for ncf in ('fixed', 'boot'):
+                    for ncf in (('fixed', 'boot') if th else ('boot',)):
                         for mk in range(4 if m == 4 else 1):
                             out.append({'fam': 'T', 'kind': 'fills', 'shape': list(shape), 'ncf': ncf,
                                         'fill': 3 if th else 0, 'vcs': ['a'], 'types': ['ranksum'],
                                         'maskpart': [mk, 4 if m == 4 else 1]})
     # ---- T: Tier-A alphabets (all sign / tie / zero patterns)
-    planA = [((2, 1), 'A', 'q4'), ((2, 2), 'A', 'q4'), ((3, 2), 'A', 'q4'), ((2, 3), 'A', 'q4' if th else 'q3'),
-             ((1, 2, 2), 'A', 'q4'), ((1, 1, 3), 'A', 'q4'), ((1, 2, 3), 'A', 'q4' if th else 'q3'),
-             ((2, 2, 2, 1), 'S', 'q4'), ((2, 2, 1, 2, 3), 'S', 'q4')]
+    # (shape, mode, alphabet with a fixed ceiling, alphabet with per-sample ceilings)
     if th:
-        planA += [((4, 2), 'A', 'q3'), ((2, 2, 2), 'A', 'q3'), ((3, 3), 'A', 'q2'), ((2, 4), 'A', 'q3')]
-    for shape, mode, alpha in planA:
+        planA = [((2, 1), 'A', 'q4', 'q4'), ((2, 2), 'A', 'q4', 'q4'), ((3, 2), 'A', 'q4', 'q4'),
+                 ((2, 3), 'A', 'q4', 'q3'), ((1, 2, 2), 'A', 'q4', 'q4'), ((1, 1, 3), 'A', 'q4', 'q4'),
+                 ((1, 2, 3), 'A', 'q4', 'q3'), ((2, 2, 2, 1), 'S', 'q4', 'q4'), ((2, 2, 1, 2, 3), 'S', 'q4', 'q4'),
+                 ((4, 2), 'A', 'q3', 'q3'), ((2, 2, 2), 'A', 'q3', 'q3'), ((3, 3), 'A', 'q2', 'q2'),
+                 ((2, 4), 'A', 'q3', 'q2'), ((3, 2, 2), 'S', 'q4', 'q3')]
+    else:
+        planA = [((2, 1), 'A', 'q4', 'q4'), ((2, 2), 'A', 'q4', 'q4'), ((3, 2), 'A', 'q3', 'q3'),
+                 ((2, 3), 'A', 'q3', 'q2'), ((1, 2, 2), 'A', 'q4', 'q3'), ((1, 1, 3), 'A', 'q4', 'q4'),
+                 ((1, 2, 3), 'A', 'q3', 'q2'), ((2, 2, 2, 1), 'S', 'q4', 'q3'), ((2, 2, 1, 2, 3), 'S', 'q4', 'q3')]
+    for shape, mode, alpha_fixed, alpha_boot in planA:
         length = int(np.prod(shape)) if mode == 'A' else shape[0] * shape[1]
-        total = len(ALPHA[alpha]) ** length
         m = shape[1]
-        per = max(16, 900 // [1, 2, 6, 24][m - 1])
-        for ncf in ('fixed', 'boot'):
+        per = max(16, 600 // [1, 2, 6, 24][m - 1])
+        for ncf, alpha in (('fixed', alpha_fixed), ('boot', alpha_boot)):
+            total = len(ALPHA[alpha]) ** length
             for rng in _chunks(total, per):
                 types = ['t-test', 'bootstrap']
-                if len(shape) == 3 and total <= 1024:
+                if len(shape) == 3 and total <= (1024 if th else 256):
                     types = types + ['ranksum']
                 out.append({'fam': 'T', 'kind': 'alpha', 'shape': list(shape), 'mode': mode, 'alpha': alpha,
                             'ncf': ncf, 'range': rng, 'types': types})
